@@ -78,7 +78,8 @@ Theorem C08_future_types : forall files pkg m r mt async,
       ob_get_operation_calls ob = length nd /\
       (forall url payload, o_result fin = Response (mkAny url payload) -> type_name url = Some r ->
          ob_result ob = Returned (Instance r payload)) /\
-      (forall code msg, o_result fin = Failed code msg -> ob_result ob = Raised (EStatus code msg)) /\
+      (forall code msg, o_result fin = Failed code msg ->
+         ob_result ob = Raised (if async then EApiError msg else EStatus code msg)) /\
       (forall url payload, o_metadata fin = Some (mkAny url payload) -> type_name url = Some mt ->
          ob_metadata ob = Returned (Instance mt payload)) /\
       (o_metadata fin = None -> ob_metadata ob = Returned PyNone) /\
